@@ -212,6 +212,7 @@ struct E7 : Engine {
 		}
 		res.hash = simk::trace_hash() ^ runner::fnv(std::to_string(c.cnt["crash_states"]) + ":" + std::to_string(c.cnt["crash_load_new"]) + ":" + std::to_string(c.cnt["crash_load_old"]));
 		res.counters["file_short_io"] = (long long)simk::stats().file_short; res.counters["file_eintr"] = (long long)simk::stats().file_eintr;
+		res.counters["sim_seconds"] = (long long)((simk::now_us() - sp.start_time_s*1000000LL)/1000000);
 		simk::end();
 		for(auto &kv:c.cnt) res.counters[kv.first] = (long long)kv.second;
 		if(c.cnt["crash_states"] > 3 && c.cnt["crash_load_none"] > 0 && (c.cnt["crash_load_old"] + c.cnt["crash_load_new"]) > 0) res.nt = res.hash ? res.hash : 1;
